@@ -136,7 +136,7 @@ impl Prop for C06 {
 	fn rule(&self) -> &'static str {
 		"Direction A: a writer history (as in C05, with user metadata incl. empty and non-UTF-8 values) runs through the real writer; the reference parser (written from the specification; raw deflate, bzip2, xz, zstd frame, snappy+big-endian CRC-32 of uncompressed data through the codec libraries' own APIs; reference datum decoder) must accept the file and recover magic, avro.schema (= Schema::json(), and JSON-equal to the simulator's schema), avro.codec, user metadata, sync, per-block counts and exactly the written values. \
 		 Direction B: the reference writer produces a file under PRNG-chosen free choices (block partition incl. 1 value per block, metadata key order, metadata map split in several blocks / negative-count block, array/map values split into blocks with negative counts, absent avro.codec for null) and the real reader (slice and stream kinds) must yield the values and user metadata. \
-		 An evaluation is one reference parse or one complete crate read. Distinct = distinct (direction, codec, block count bucket, writer free-choice bits, reader kind class)."
+		 An evaluation is one reference parse or one complete crate read. Distinct = distinct (direction, codec, block count bucket, writer free-choice bits, reader kind class). Schema texts carry attributes the crate must preserve (non-ASCII, escapes, a string ending in an escaped backslash, numbers in other notations, unknown logical types, primitives in long form); user metadata reaches 340 entries, 70 000-byte values and 8 200-byte keys; one scenario in thirty is deliberately large-scale (see C05)."
 	}
 	fn assumptions(&self) -> Vec<String> {
 		vec![
